@@ -29,6 +29,12 @@ from lithium.reducer import Lithium
 cases = json.load(open(sys.argv[2]))
 out = []
 for argv in cases:
+    extra_path = []
+    if argv and argv[0].startswith("@path="):
+        extra_path = [os.path.join(sys.argv[1], p) for p in argv[0][6:].split(",") if p]
+        argv = argv[1:]
+    saved_path = list(sys.path)
+    sys.path[1:1] = extra_path
     before = list(sys.path)
     l = Lithium()
     res = {}
@@ -58,6 +64,7 @@ for argv in cases:
     except BaseException as e:
         res = {"ok": False, "exc": type(e).__name__, "msg": str(e)[:100]}
     res["syspath_same"] = (list(sys.path) == before)
+    sys.path[:] = saved_path
     out.append(res)
     # forget test modules imported from the scratch directory
     for k in [k for k, m in sys.modules.items() if getattr(m, "MARKER", None)]:
@@ -120,7 +127,8 @@ def run(ck: Check):
     try:
         # scratch directory: test modules with a MARKER, testcase files
         os.mkdir(os.path.join(work, "d"))
-        for rel, marker in (("yes.py", "cwd-yes"), ("d/yes.py", "d-yes"), ("d/test.py", "d-test"),
+        os.mkdir(os.path.join(work, "other"))
+        for rel, marker in (("yes.py", "cwd-yes"), ("d/yes.py", "d-yes"), ("other/yes.py", "other-yes"), ("d/test.py", "d-test"),
                             ("d/json.py", "d-json"), ("d/mytest.py", "d-mytest"), ("crashes.py", "cwd-crashes"),
                             ("outputs2.py", "cwd-outputs2")):
             with open(os.path.join(work, rel), "w") as f:
@@ -166,12 +174,19 @@ def run(ck: Check):
                   ((), "d/mytest.py", ("t.txt",), "d/mytest.py"), ((), "d/test.py", ("t.txt",), "d/test.py"),
                   ((), "d/json.py", ("t.txt",), "d/json.py"), ((), "crashes", ("true", "t.txt"), "crashes.py"),
                   ((), "outputs2", ("t.txt",), "outputs2.py"), ((), "nosuchtest", ("t.txt",), "ImportError"),
-                  ((), os.path.join(work, "d", "yes.py"), ("t.txt",), "d/yes.py")]
+                  ((), os.path.join(work, "d", "yes.py"), ("t.txt",), "d/yes.py"),
+                  # the test's directory is already on sys.path, after a directory holding a same-named module
+                  (("@path=other,d",), "d/yes.py", ("t.txt",), "d/yes.py"),
+                  (("@path=d",), "d/mytest.py", ("t.txt",), "d/mytest.py"),
+                  (("@path=other,.",), "yes", ("t.txt",), "yes.py"),
+                  (("@path=d",), "yes.py", ("t.txt",), "yes.py")]
 
         def argv_of(pre, name, rest):
             out = []
             for it in pre:
-                if len(it) == 1:
+                if isinstance(it, str):
+                    out.append(it)
+                elif len(it) == 1:
                     out.append(it[0])
                 elif it[2] == "sep":
                     out += [it[0], it[1]]
